@@ -113,11 +113,18 @@ class _FileProxy:
 
     def write(self, data):
         f = self._faults
-        idx = f.op("write", self._name, len(data))
+        raw = isinstance(self._real, io.RawIOBase)
+        # an unbuffered (raw) file object hands the data to write(2) once and reports how much was taken - like os.write
+        idx = f.op("write", ("raw:" if raw else "") + self._name, len(data))
         act = f.action(idx)
         if act is None:
             return self._real.write(data)
         kind = act[0]
+        if kind == "short-silent":
+            if raw:
+                n = min(act[1], len(data))
+                return self._real.write(bytes(data)[:n]) if n else 0
+            return self._real.write(data)       # a buffered writer retries by itself: nothing to inject here
         if kind == "crash-before":
             os._exit(CRASH_CODE)
         if kind == "error":
